@@ -223,11 +223,12 @@ def check_roots_logs(res, rng, t, reps):
     import clifford.tools.g3c.rotor_parameterisation as rp
     site0 = dict(module='tools.g3c')
     one = 1 + 0 * t.e1
-    for _ in range(reps):
+    for i_rep in range(reps):
         TR = rigid(rng, t, 'general')
         S = t.generate_dilation_rotor(float(rng.choice([0.5, 0.75, 1.5, 2.0])))
         TRw = rigid(rng, t, 'wide')
-        for name, R in (('TR', TR), ('TRS', TR * S), ('TR', TRw), ('TR', -TR)):
+        for i_rl, (name, R) in enumerate((('TR', TR), ('TRS', TR * S), ('TR', TRw), ('TR', -TR))):
+            i_rl = i_rl + 4 * i_rep
             site = dict(site0, rotor=name)
             inp = dict(site, R=R.value.tolist())
             res.case(('roots', name, tuple(np.round(R.value, 9).tolist())), nontrivial=True, sample=dict(rotor=name))
@@ -284,8 +285,29 @@ def check_roots_logs(res, rng, t, reps):
                     R0 = rigid(rng, t, 'general')
                     i0, i1 = rp.interpolate_TR_rotors(R, R0, 0.0), rp.interpolate_TR_rotors(R, R0, 1.0)
                     if not (near(i0, R0, mag(R0)) and pm_near(i1, R, mag(R), 1e-6)):
-                        res.violate('interpolate_TR_rotors does not return its end points at fraction 0 and 1', inp, [i0.value.tolist(), i1.value.tolist()],
-                                    [R0.value.tolist(), R.value.tolist()], dict(site, op='interpolate_TR'))
+                        # the relative rotor R*~R0 with a scalar part within 1e-4 of -1 (the poses differ by almost a full turn) is the second
+                        # branch point of the arccos in extractRotorComponents: recorded finding, tagged exactly; fraction 0 is never excused
+                        sc_ = float((R * ~R0).value[0])
+                        case_ = dict(case='relative_rotor_near_minus_one') if (sc_ < -1 + 1e-4 and near(i0, R0, mag(R0))) else {}
+                        res.violate('interpolate_TR_rotors does not return its end points at fraction 0 and 1', dict(inp, R0=R0.value.tolist(), relative_scalar_part=sc_),
+                                    [i0.value.tolist(), i1.value.tolist()], [R0.value.tolist(), R.value.tolist()], dict(site, op='interpolate_TR', **case_))
+            if name == 'TR' and i_rl == 0:
+                # the recorded finding at the second branch point, deterministically: two poses about the same axis whose half-angles differ by pi - 2e-4
+                with common.guard(res, 'interpolate_TR_rotors near a full turn', site, inp):
+                    one_ = 1 + 0 * t.e1
+                    ax_ = (t.e12 + 0.5 * t.e13 - 0.25 * t.e23)
+                    ax_ = ax_ / abs(ax_)
+                    Ra = t.generate_translation_rotor(t.e1 + 2.0 * t.e2) * (math.cos(0.35) * one_ - math.sin(0.35) * ax_)
+                    Rb = t.generate_translation_rotor(-1.0 * t.e1 + 0.5 * t.e3) * (math.cos(0.35 + math.pi - 2e-4) * one_ - math.sin(0.35 + math.pi - 2e-4) * ax_)
+                    res.case(('interpolate_TR-near-full-turn',), nontrivial=True)
+                    j0, j1 = rp.interpolate_TR_rotors(Rb, Ra, 0.0), rp.interpolate_TR_rotors(Rb, Ra, 1.0)
+                    if not near(j0, Ra, mag(Ra)):
+                        res.violate('interpolate_TR_rotors does not return its first end point at fraction 0', dict(inp, case='near full turn'), j0.value.tolist(), Ra.value.tolist(),
+                                    dict(site, op='interpolate_TR', case='near_full_turn_0'))
+                    if not pm_near(j1, Rb, mag(Rb), 1e-6):
+                        res.violate('interpolate_TR_rotors does not return its end points at fraction 0 and 1', dict(inp, R=Rb.value.tolist(), R0=Ra.value.tolist(),
+                                                                                                                relative_scalar_part=float((Rb * ~Ra).value[0])),
+                                    [j0.value.tolist(), j1.value.tolist()], [Ra.value.tolist(), Rb.value.tolist()], dict(site, op='interpolate_TR', case='relative_rotor_near_minus_one'))
             with common.guard(res, 'interpolate_rotors', site, inp):
                 R0 = rigid(rng, t, 'general')
                 i0, i1 = rp.interpolate_rotors(R, R0, 0.0), rp.interpolate_rotors(R, R0, 1.0)
